@@ -28,6 +28,20 @@ CHECKS = {
    note="Sequentially consistent interleavings at hook-point granularity (payload memcpy is one step on the real code); weaker-than-TSO reorderings are not executable here, only the requested release/acquire orders are bound; real-ring schedules are sampled, the exhaustive part is the small-ring model.",
    technique="TLA+ model checking (TLC, all interleavings of a word-level model) + deterministic schedule control of the real threads via hook points + TLC trace validation of every step",
    design_ref="DESIGN.md section 4, C01"),
+ "C03": dict(
+   category="fault_enumeration",
+   text="spec/IpcCrash.tla states, as action guards, what may be observed around the death of an IPC peer (callback word accept, created?, msg*, "
+        "closed?, destroyed, with closed iff created; nothing held after destroyed; at server quiescence every dead or departed client is fully "
+        "released; other clients keep being served; finite timeouts are deadlines; wait-forever sendv_recv and event_recv return a disconnect error "
+        "within two 2-second rounds; after a reported disconnect every call fails immediately; qb_ipcc_disconnect leaves no file of a dead server). "
+        "IpcCrashMC.tla checks a stage-level mechanism model against those guards exhaustively for every crash point, including liveness under "
+        "fairness. Binding: the dying side runs the real library in a forked child stopped at the boundary of its N-th libc call, every N from a dry "
+        "run (thorough) or a seeded 10% sample plus directed points (quick), for connect / send / sendv_recv / event_recv / disconnect x shm / socket "
+        "x empty / queued x four server schedules, plus every handshake prefix and the swapped server-death scenarios; every recorded scenario is "
+        "validated by TLC (IpcCrashTrace.tla).",
+   note="Crash points are libc-call boundaries; four server schedules per point, not all interleavings; real-time latencies with slack 1500 ms, 'immediately' = 500 ms, confirm-by-rerun; a dead server's directory and the statistics counters are observed but not judged; Linux abstract sockets, max_msg_size 8192; TLC, ASan/UBSan and the harness projection are trusted.",
+   technique="TLA+ model checking (TLC, safety and liveness) + spec-driven fault enumeration on the C code (call-counting interposer, forked peers) + TLC trace validation",
+   design_ref="DESIGN.md section 4, C03"),
  "C07": dict(
    text="spec/RingAbs.tla states the capacity contract and FIFO semantics of the ring buffer (must-accept rule with 16 bytes overhead, "
         "refused write and too-small read change nothing, reads return the accepted chunks byte for byte); TLC checks it exhaustively for "
